@@ -94,7 +94,7 @@ var registry = []prop{
 	{
 		ID: "C19", Pkg: "props/c19", Level: "exploration", Hang: true,
 		Quick:  tierCfg{Shards: 1, Scale: 1, TimeoutS: 400},
-		Thor:   tierCfg{Shards: 16, Scale: 10, TimeoutS: 2400},
+		Thor:   tierCfg{Shards: 16, Scale: 6, TimeoutS: 2400},
 		Assume: []string{"the current state file always exists and timestamps strictly increase with the sequence number", "request budget 8*(ceil(log2(cur))+2) + 4*(missing files in [1,cur]) + 16 is the harness's generous reading of logarithmic plus stepped-over gaps", "queries before every state are only combined with missing prefixes of at most 2000 files (any exact search has to inspect the whole prefix then)"},
 	},
 	{
